@@ -72,6 +72,7 @@ class Exchange(object):
         self.escaped_phase = None  # 'call' | 'iter' | 'close'
         self.closed = False
         self.close_called = 0
+        self.sendfile_used = False
         self.errors = []           # protocol violations (strings, stable keys first)
         self.bytes_before_start = False
         self.write_used = False
@@ -112,6 +113,46 @@ class Exchange(object):
         self.errors.append((key, msg))
 
 
+class SendfileWrapper(object):
+    """wsgi.file_wrapper of a server that transmits with sendfile(2): when the application returns this very object and the
+    file-like has a descriptor, the server sends Content-Length bytes from the DESCRIPTOR's current offset (as gunicorn
+    does); otherwise it iterates like any wrapper."""
+
+    def __init__(self, filelike, blksize=8192):
+        self.filelike, self.blksize = filelike, blksize
+
+    def __iter__(self):
+        return self
+
+    def __next__(self):
+        data = self.filelike.read(self.blksize)
+        if data:
+            return data
+        raise StopIteration
+
+    def close(self):
+        if hasattr(self.filelike, 'close'):
+            self.filelike.close()
+
+
+def _sendfile(ex, it):
+    import os
+    fd = it.filelike.fileno()
+    n = None
+    for k, v in (ex.start_calls[-1][1] if ex.start_calls else []):
+        if k.lower() == 'content-length' and v.isdigit():
+            n = int(v)
+    while n is None or n > 0:
+        chunk = os.read(fd, 65536 if n is None else min(65536, n))
+        if not chunk:
+            break
+        ex.chunks.append(chunk)
+        if n is not None:
+            n -= len(chunk)
+    ex.iter_done = True
+    ex.sendfile_used = True
+
+
 def call_app(app, environ, consume='drain', abort_after=0, validate=True):
     """Run one exchange.  consume: 'drain' | 'abort' | 'noiter'."""
     ex = Exchange()
@@ -141,7 +182,10 @@ def call_app(app, environ, consume='drain', abort_after=0, validate=True):
             ex.escaped, ex.escaped_phase = e, 'call'
         if it is not None:
             try:
-                if consume != 'noiter':
+                if (isinstance(it, SendfileWrapper) and consume == 'drain' and method != 'HEAD' and ex.start_calls
+                        and callable(getattr(it.filelike, 'fileno', None))):
+                    _sendfile(ex, it)
+                elif consume != 'noiter':
                     n = 0
                     iterator = iter(it)
                     while True:
